@@ -16,6 +16,10 @@ Definition obj_item (o : obj) (i : Z) : res (list E) := rsequence (map (fun f =>
 Fixpoint transpose_cols (os : list obj) (nfields : nat) : obj :=
   match nfields with O => [] | S k => concat (map (fun o => hd [] o) os) :: transpose_cols (map (@tl (list E)) os) k end.
 Definition obj_concat (os : list obj) : obj := match os with [] => [] | o :: _ => transpose_cols os (length o) end.
+(* astype (L93-99): the fields of the target class, looked up BY NAME in the source (a field = its position in the source; `keep` lists
+   the source positions in the target's declared order); a name the source does not have is refused *)
+Definition obj_astype (o : obj) (keep : list nat) : res obj :=
+  if forallb (fun j => Nat.ltb j (length o)) keep then Ok (map (fun j => nth j o []) keep) else Refused.
 (* entries = transpose: entry i consists of the i-th element of every field *)
 Definition heads (o : obj) : list E := flat_map (fun f => match f with e :: _ => [e] | [] => [] end) o.
 Fixpoint entries (o : obj) (n : nat) : list (list E) :=
